@@ -395,13 +395,18 @@ func (proxy *PgProxy) handleClientPacket(ctx context.Context, packet *PacketHand
 				WithError(err).Errorln("Can't fetch query string from Query packet")
 			return false, err
 		}
+		// If that's some sort of a packet with a query inside it,
+		// process inline data if necessary and remember the query to handle future response.
+		// A query rejected by AcraCensor is not sent, so there will be no response to pair it with.
+		censored, err := proxy.handleQueryPacket(ctx, packet, logger)
+		if err != nil || censored {
+			return censored, err
+		}
 		queryPacket := newQueryPacket(query)
 		if err = proxy.protocolState.pendingQueryPackets.Add(queryPacket); err != nil {
 			return false, err
 		}
-		// If that's some sort of a packet with a query inside it,
-		// process inline data if necessary and remember the query to handle future response.
-		return proxy.handleQueryPacket(ctx, packet, logger)
+		return false, nil
 
 	case BindStatementPacket:
 		// Bound query parameters may contain inline data that we need to process.
